@@ -15,7 +15,7 @@ PROP = {
         {"name": "clients", "pkg": "internal/client", "files": ["client/c04_model_test.go", "client/c05_storage_test.go"],
          "tests": [("TestVFC05ClientStoragePrograms", (60, 300))], "shards": (2, 16)},
         {"name": "dhcpd", "pkg": "internal/dhcpd", "files": ["dhcpd/c10_world_test.go", "dhcpd/c05_dhcp_test.go"],
-         "tests": [("TestVFC05DHCPPrograms", (60, 300))], "shards": (2, 16)},
+         "tests": [("TestVFC05DHCPPrograms", (60, 300)), ("TestVFC05DHCPLastAddress", (30, 60))], "shards": (2, 16)},
     ],
     "level": "exploration",
     "technique": "generated concurrent programs (rapid) executed under the Go race detector with halt_on_error; "
